@@ -436,13 +436,17 @@ PROPS = {
     "C06": _db_prop("C06", "c06", 300, 6000,
                     "watch channels of every query kind on every index kind taken from fresh snapshots before each "
                     "transaction plus InsertWatch; channel bits sampled at hand-out and after every commit/abort; "
+                    "family c06lpm: 2..8 objects under one prefix of the non-unique LPM index, Get/List/Prefix/LowerBound "
+                    "watches through that index renewed after every commit; "
                     "non-trivial = a tracked channel exists when a transaction ends", _nt_watch,
-                    extra_modes=(("c07", 100, 2000), ("kf_l", 20, 100), ("c06inner", 150, 3000), ("c06dense", 400, 8000), ("sched", 120, 2500)), tlc_gen=True),
+                    extra_modes=(("c07", 100, 2000), ("kf_l", 20, 100), ("c06inner", 150, 3000), ("c06dense", 400, 8000), ("c06lpm", 120, 2500), ("sched", 120, 2500)), tlc_gen=True),
     "C07": _db_prop("C07", "c07", 400, 8000,
                     "up to 4 change iterators created at arbitrary points (also in aborted transactions); Next with "
                     "fresh/retained snapshots and write transactions holding uncommitted changes of the table, full and "
                     "partial consumption, re-inserts after deletes, virtual-time graveyard collection in between; "
-                    "non-trivial = Next after a delete", _nt_iter, extra_modes=(("gcwindow", 150, 3000),)),
+                    "family sched: an iterator consumer among concurrent writers (snapshots taken between the store of a new "
+                    "root and the closing of the watch channels, partial then full consumption); "
+                    "non-trivial = Next after a delete", _nt_iter, extra_modes=(("gcwindow", 150, 3000), ("sched", 100, 2000))),
     "C08": _db_prop("C08", "c08", 400, 8000,
                     "as C07 with graveyard size observed (public Metrics) after virtual-time waits: lower bound always, "
                     "exact after quiescence; non-trivial = Next after a delete", _nt_iter,
